@@ -204,7 +204,7 @@ PROPS = {
         'props': 'Props/C13.v',
         'suites': [{'name': 'loop', 'oracles': {'loop': 'o_loop'}, 'trivial_tags': ['plain'], 'vm_sample': 12, 'sigs': ['ask-redirect-without-asking', 'redirect-error-leaked-to-client', 'event-loop-stopped']}],
         'rule': LOOP_RULE,
-        'explanation': "Theorems: a MOVED/ASK reply for an open fragment naming a reachable node re-queues the fragment at the tail of that node's connection without touching any client or request; ordering/exactly-once by C01's theorem; every step is a total function. REFUTED for ASK (C13_ask_refuted): no ASKING precedes the re-sent request - recorded as known finding ask-redirect-without-asking. Late redirects for completed requests used to panic (repaired).",
+        'explanation': "Theorems: a MOVED/ASK reply for an open fragment naming a reachable node re-queues the fragment at the tail of that node's connection without touching any client or request (C13_redirect_requeues); for ASK the ownerless ASKING command is queued immediately before it and the write round sends ASKING then the request (C13_redirect_queue, C13_asking_then_request; witness C13_ask_witness: the +OK of ASKING reaches no client); ordering/exactly-once by C01's theorem; every step is a total function. Two genuine defects repaired: the request re-sent after -ASK was not preceded by ASKING (first proved as C13_ask_refuted and kept as a known finding, then repaired in ae04d4f: model, theorems and oracle now state the positive property); late redirects for completed requests used to panic.",
         'assumptions': ["redirect chains are finite when the cluster's redirects are consistent (no hop bound exists: A->B->A loops forever) - assumption consistent_redirects", 'as C01'],
     },
     'C16': {
@@ -250,9 +250,9 @@ MANIFEST_TEXT = {
         'technique': 'Coq proof (inductive invariant over event-loop steps) + differential correspondence through the real event loop, also under backpressure',
     },
     'C13': {
-        'text': 'Coq theorems on the redirect step (re-queue at tail, nothing reaches the client) + C01 invariant; ASK part refuted by a computed witness and recorded as a known finding. MOVED/ASK/unknown-node histories through the real loop.',
+        'text': 'Coq theorems on the redirect step (re-queue at tail, ASKING immediately before a request re-sent after -ASK, nothing reaches the client) + C01 invariant. MOVED/ASK/unknown-node histories through the real loop; the session oracle demands ASKING before every re-sent ASK request.',
         'note': 'Trusted: Coq kernel, extraction, Go harness + stepper hooks (core/verif_loop.go), the transcription in Model/Proxy.v (validated on every run against the production loop). Environment: well-formed backends.',
-        'technique': 'Coq proof (step lemma + invariant; refutation by vm_compute witness) + differential correspondence',
+        'technique': 'Coq proof (step lemmas + inductive invariant) + differential correspondence through the real event loop',
     },
     'C16': {
         'text': 'Coq theorems on the timeout scan (all expired requests completed with the timeout error, late replies dropped, queue not blocked) + C01 invariant for position. Real 15 ms timeouts with real sleeps through the production loop.',
